@@ -88,6 +88,9 @@ type SeqOpts struct {
 	MaxPaths  int
 	// Inline decides whether a statically called function is explored in place.
 	Inline func(caller, callee *ssa.Function) bool
+	// Decide, when set, may fix the outcome of a branch (the index of the
+	// successor taken); undecided branches are explored both ways as usual.
+	Decide func(ifi *ssa.If) (idx int, ok bool)
 }
 
 // SuccessSeqs enumerates the event sequences along every path from entry to a
@@ -228,6 +231,12 @@ func SuccessSeqs(f *ssa.Function, o SeqOpts) (seqs [][]string, ok bool) {
 			case *ssa.Panic:
 				return
 			case *ssa.If:
+				if o.Decide != nil {
+					if idx, decided := o.Decide(x); decided {
+						walk(fr, b.Succs[idx], 0, acc)
+						return
+					}
+				}
 				if okEdge, is := IsErrCheck(x); is {
 					// an error bound by an inlined callee decides the branch
 					known, val := boundError(x)
